@@ -380,6 +380,88 @@ func c05closeMid(size, seed, before int, tcp bool) string {
 	return fmt.Sprintf("check-write x%s - - 2:%d:%d:%d", vhex(raw), size, seed, must)
 }
 
+// c05writeStall: a client with a write deadline (WithTimeout d) whose peer takes only `k` bytes of a request's frame and
+// then stops reading for 1.5 d, while it keeps the read side alive with event notifications; afterwards the peer reads
+// whatever else arrives. The write fails on its deadline, so the connection ends — and what the peer has received must
+// be a PREFIX of the frame (C05.failed_stream_is_prefix): nothing may be written again, and nothing may follow a
+// part-written header. Returns the wr-prefix request for the raw bytes.
+func c05writeStall(k, size, seed int, d time.Duration) string {
+	a, b := net.Pipe()
+	c := NewClient(WithLogger(nil), WithVersion(Version1_0_1), WithTimeout(d))
+	connErr := make(chan error, 1)
+	go func() {
+		defer func() {
+			if r := recover(); r != nil {
+				connErr <- fmt.Errorf("panic: %v", r)
+			}
+		}()
+		connErr <- c.Connect(a)
+	}()
+	peer := &vpeer{c: b}
+	peer.send(vframe{ver: 1, typ: 63, id: 0, payload: renPayload(0)})
+	select {
+	case <-c.ready:
+	case <-time.After(3 * time.Second):
+		a.Close()
+		b.Close()
+		return "timeout-ready"
+	}
+	payload := genPayload(seed, size)
+	go func() {
+		m, err := NewByteMessage(MessageType(2), payload)
+		if err != nil {
+			return
+		}
+		ctx, cancel := context.WithTimeout(context.Background(), 3*time.Second)
+		defer cancel()
+		_ = c.SendNoWait(ctx, m)
+	}()
+	raw := make([]byte, k)
+	b.SetReadDeadline(time.Now().Add(3 * time.Second))
+	if _, err := io.ReadFull(b, raw); err != nil {
+		a.Close()
+		b.Close()
+		return "timeout-first-bytes"
+	}
+	// stall: read nothing, but keep sending notifications so that the client's READ deadline never fires
+	stop := time.After(d + d/2)
+	var wmu sync.Mutex
+stall:
+	for i := uint32(1); ; i++ {
+		select {
+		case <-stop:
+			break stall
+		case <-time.After(d / 5):
+			wmu.Lock()
+			b.SetWriteDeadline(time.Now().Add(d / 5))
+			b.Write(vframe{ver: 1, typ: 63, id: i, payload: renPayload(0)}.bytes())
+			wmu.Unlock()
+		}
+	}
+	rest := make(chan []byte, 1)
+	go func() {
+		b.SetReadDeadline(time.Now().Add(4 * d))
+		r, _ := io.ReadAll(b)
+		rest <- r
+	}()
+	// keep the read side alive a little longer: a client that retried its write gets the chance to complete it
+	for i := uint32(100); i < 110; i++ {
+		time.Sleep(d / 5)
+		wmu.Lock()
+		b.SetWriteDeadline(time.Now().Add(d / 5))
+		b.Write(vframe{ver: 1, typ: 63, id: i, payload: renPayload(0)}.bytes())
+		wmu.Unlock()
+	}
+	select {
+	case <-connErr:
+	case <-time.After(2 * time.Second):
+	}
+	a.Close()
+	raw = append(raw, (<-rest)...)
+	b.Close()
+	return fmt.Sprintf("wr-prefix 1 x%s r2:%d:%d:0", vhex(raw), size, seed)
+}
+
 func TestVerifC05(t *testing.T) {
 	o := vopen(t)
 	defer o.close()
@@ -429,6 +511,22 @@ func TestVerifC05(t *testing.T) {
 			continue
 		}
 		o.line(c05closeMid(cm.size, 17+i, cm.before, cm.tcp)+" #"+tag, "accept")
+	}
+
+	// A''. a peer that takes a few bytes of a frame and stalls beyond the client's write deadline (read side kept alive)
+	for i, ws := range []struct{ k, size int }{{1, 0}, {4, 64}, {7, 1000}, {9, 0}, {10, 3000}, {12, 100}} {
+		tag := fmt.Sprintf("write-stall:%d", i)
+		if only != "" && only != tag {
+			continue
+		}
+		line := ""
+		for attempt := 0; attempt < 3; attempt++ { // "timeout-…": the machine was too slow to set the scene; try again
+			line = c05writeStall(ws.k, ws.size, 40+i, 250*time.Millisecond)
+			if !strings.HasPrefix(line, "timeout-") {
+				break
+			}
+		}
+		o.line(line+" #"+tag, "accept")
 	}
 
 	// B. concurrent stress, judged by the Lean monitor on the raw stream
